@@ -723,6 +723,18 @@ impl<P: Pid> Ep<P> {
                         if snapshot_session_scope(&pre_snap) != snapshot_session_scope(&post_recv_snap) || (undetermined && post_recv_snap.protocol_version != 0) {
                             rules.viol_sig("c17.gating-state", format!("c17.gating-state|{:?}|type{}|{}", self.cfg.role, ty, super_crate::props::epc::ver_name(pre_m.ver)), &pre_m, format!("a packet of forbidden type {ty} changed session state or the protocol version: {}", c.describe()));
                         }
+                    } else if (ty == 1 && !pre_m.as_client && pre_m.st != St::Disc && !undetermined) || (ty == 2 && pre_m.as_client && pre_m.st == St::Connected) {
+                        // CONNECT / CONNACK on an established connection (a server that has received
+                        // CONNECT is established for this purpose: a second CONNECT is a protocol error)
+                        rules.label(if ty == 1 { "c17.connect-on-established" } else { "c17.connack-on-established" });
+                        let delivered = !c.recvs().is_empty();
+                        let err_ok = c.errors().iter().any(|e| matches!(e, MqttError::ProtocolError | MqttError::MalformedPacket));
+                        if delivered || !err_ok {
+                            rules.viol_sig("c17.on-established", format!("c17.on-established|type{}|{:?}", ty, pre_m.st), &pre_m, format!("a {} arriving in status {:?} must be a protocol error and must not be delivered: {}", if ty == 1 { "CONNECT" } else { "CONNACK" }, pre_m.st, c.describe()));
+                        }
+                        if snapshot_session_scope(&pre_snap) != snapshot_session_scope(&post_recv_snap) {
+                            rules.viol_sig("c17.on-established-state", format!("c17.on-established-state|type{}|{:?}", ty, pre_m.st), &pre_m, format!("a {} arriving in status {:?} changed session state: {}", if ty == 1 { "CONNECT" } else { "CONNACK" }, pre_m.st, c.describe()));
+                        }
                     } else if undetermined && ty == 1 {
                         // CONNECT on an undetermined server: levels 4 / 5 are adopted, others refused
                         let level = f.get(8).copied().unwrap_or(0);
@@ -1053,6 +1065,13 @@ impl<P: Pid> World for Ep<P> {
                 Some(i) => Some(TOPICS[*i as usize].to_vec()),
                 None => self.m.peer_alias.get(alias).cloned(),
             };
+            // a binding the library created itself (auto-map) is its own business: only bindings the
+            // application registered, and the absence of any binding, are judged
+            let app_registered = t.is_some() || self.m.app_alias.contains_key(alias);
+            if expect.is_some() && !app_registered {
+                rules.label("c13.regulate-not-judged");
+                return;
+            }
             match (&got, &expect) {
                 (Ok(AP::Publish { topic, props, .. }), Some(want)) => {
                     rules.label("c13.regulate-ok");
